@@ -247,6 +247,7 @@ type c13Case struct {
 	Min      int    `json:"min_ttl"`
 	Max      int    `json:"max_ttl"`
 	Queries  int    `json:"queries"`
+	Paris    bool   `json:"paris"` // TCPSynParisTracerouteMode (library option, through the helper only)
 	Capture  bool   `json:"-"`
 	tp       *c13Topo
 }
@@ -272,6 +273,9 @@ type c13Obs struct {
 const c13TimeoutMs = 600
 
 func (c c13Case) variant() string {
+	if c.Proto == "tcp" && c.Paris {
+		return "tcp-" + c.Method + "-paris"
+	}
 	if c.Proto == "tcp" {
 		return "tcp-" + c.Method
 	}
@@ -329,7 +333,7 @@ func c13RunCLI(cli string, c c13Case) c13Obs {
 func c13RunHelper(helper string, c c13Case) c13Obs {
 	params, _ := json.Marshal(map[string]any{"hostname": c.tp.destAddr(), "port": c13Port, "protocol": c.Proto,
 		"min_ttl": c.Min, "max_ttl": c.Max, "delay_ms": 15, "timeout_ms": c13TimeoutMs, "tcp_method": c.Method,
-		"queries": c.Queries, "e2e": 0, "capture": c.Capture})
+		"queries": c.Queries, "e2e": 0, "capture": c.Capture, "paris": c.Paris})
 	cmd := exec.Command("ip", "netns", "exec", c.tp.client(), helper, "trace", string(params))
 	var stdout, stderr bytes.Buffer
 	cmd.Stdout, cmd.Stderr = &stdout, &stderr
@@ -516,6 +520,10 @@ func TestC13(t *testing.T) {
 				c.Capture = true
 				g.steps = append(g.steps, []c13Case{c})
 			}
+		}
+		if n == 2 || n == 3 || thorough {
+			// TCP SYN in Paris mode (a library option): in a fresh process, through the kernel's send path
+			g.steps = append(g.steps, []c13Case{{Scenario: "open-paris", Via: "helper", Proto: "tcp", Method: "syn", Min: 1, Max: n + 3, Queries: 1, Paris: true, tp: tp}})
 		}
 		if n == 3 || (thorough && n >= 2) {
 			// first TTL > 1 (through the library: the CLI has no flag for it); ranges that start at a
